@@ -15,6 +15,7 @@ import (
 	"fmt"
 	"io"
 	"io/fs"
+	"net"
 	"net/http"
 	"net/http/httptest"
 	"os"
@@ -214,6 +215,162 @@ func symDirs(cwd, top, root string, c map[string]any) error {
 		}
 	}
 	return nil
+}
+
+// ---------------------------------------------------------------- clean-up paths (C13 cleanup)
+
+// a registry that serves one manifest per "ns/model:tag"; the blobs are expected to be cached already
+var (
+	regOnce      sync.Once
+	regAddr      string
+	regMu        sync.Mutex
+	regManifests = map[string][]byte{}
+)
+
+func startRegistry() string {
+	regOnce.Do(func() {
+		ln, err := net.Listen("tcp", "127.0.0.1:0")
+		if err != nil {
+			panic(err)
+		}
+		regAddr = ln.Addr().String()
+		mux := http.NewServeMux()
+		mux.HandleFunc("/v2/", func(w http.ResponseWriter, r *http.Request) {
+			p := strings.TrimPrefix(r.URL.Path, "/v2/")
+			if i := strings.Index(p, "/manifests/"); i >= 0 {
+				regMu.Lock()
+				m, ok := regManifests[strings.ToLower(p[:i]+":"+p[i+len("/manifests/"):])]
+				regMu.Unlock()
+				if ok {
+					w.Header().Set("Content-Type", "application/vnd.docker.distribution.manifest.v2+json")
+					w.Write(m)
+					return
+				}
+			}
+			http.NotFound(w, r)
+		})
+		go http.Serve(ln, mux)
+	})
+	return regAddr
+}
+
+// snapshot: every file (not directory) below top, relative path -> sha256 ("L:<target>" for symbolic links)
+func snapshot(top string) map[string]string {
+	out := map[string]string{}
+	filepath.Walk(top, func(p string, info os.FileInfo, err error) error {
+		if err != nil || info.IsDir() {
+			return nil
+		}
+		rel, _ := filepath.Rel(top, p)
+		if info.Mode()&os.ModeSymlink != 0 {
+			t, _ := os.Readlink(p)
+			out[rel] = "L:" + t
+			return nil
+		}
+		b, _ := os.ReadFile(p)
+		sum := sha256.Sum256(b)
+		out[rel] = hex.EncodeToString(sum[:8])
+		return nil
+	})
+	return out
+}
+
+func cleanupOp(cwd string, c map[string]any) any {
+	top, err := os.MkdirTemp(".", "cl")
+	if err != nil {
+		return map[string]any{"harness_error": err.Error()}
+	}
+	defer os.RemoveAll(top)
+	topAbs := filepath.Join(cwd, top)
+	home := filepath.Join(topAbs, "home")
+	root := filepath.Join(home, "models")
+	os.Setenv("OLLAMA_MODELS", root)
+	os.Unsetenv("OLLAMA_NOPRUNE")
+	addr := startRegistry()
+	// sentinels: a key next to the models directory, files outside, another model, a key inside the store
+	os.MkdirAll(filepath.Join(home, "dir"), 0o755)
+	os.MkdirAll(root, 0o755)
+	os.WriteFile(filepath.Join(home, "id_ed25519"), []byte("PRIVATE KEY"), 0o600)
+	os.WriteFile(filepath.Join(home, "dir", "x"), []byte("x"), 0o644)
+	os.WriteFile(filepath.Join(topAbs, "outside.txt"), []byte("outside"), 0o644)
+	os.WriteFile(filepath.Join(root, "id_ed25519"), []byte("PRIVATE KEY 2"), 0o600)
+	victim := []string{"registry.ollama.ai", "library", "victim", "latest"}
+	if err := seedModel(root, victim, 1); err != nil {
+		return map[string]any{"harness_error": err.Error()}
+	}
+	// extra blobs: one referenced by nobody (legitimately removable), one with an odd name
+	orphan := putBlob(root, []byte("orphan"))
+	// the target model: a manifest on disk whose digests are the given (hostile) strings
+	target := []string{addr, "n", "target", "t"}
+	layers := []any{}
+	for _, d := range hx.UnhexList(c["digests"]) {
+		layers = append(layers, map[string]any{"mediaType": "application/vnd.ollama.image.model", "digest": d, "size": 1})
+	}
+	if b, _ := c["with_orphan"].(bool); b {
+		layers = append(layers, map[string]any{"mediaType": "application/vnd.ollama.image.license", "digest": orphan["digest"], "size": orphan["size"]})
+	}
+	man := map[string]any{"schemaVersion": 2, "mediaType": "application/vnd.docker.distribution.manifest.v2+json",
+		"config": map[string]any{"mediaType": "application/vnd.docker.container.image.v1+json", "digest": hx.Unhex(c["config"]), "size": 1},
+		"layers": layers}
+	tp := filepath.Join(root, "manifests", target[0], target[1], target[2], target[3])
+	os.MkdirAll(filepath.Dir(tp), 0o755)
+	mb, _ := json.Marshal(man)
+	os.WriteFile(tp, mb, 0o644)
+	tname := target[0] + "/" + target[1] + "/" + target[2] + ":" + target[3]
+
+	before := snapshot(topAbs)
+	var blobNames []string
+	if es, err := os.ReadDir(filepath.Join(root, "blobs")); err == nil {
+		for _, e := range es {
+			blobNames = append(blobNames, e.Name())
+		}
+	}
+	o := map[string]any{"root": hx.Hex(root), "target": hx.Hex(strings.TrimPrefix(tp, topAbs+"/")), "blobs_before": hx.HexList(blobNames)}
+	f := false
+	var code int
+	var body string
+	switch c["action"] {
+	case "delete":
+		code, body = doJSON("DELETE", "/api/delete", map[string]any{"model": tname})
+	case "create":
+		code, body = doJSON("POST", "/api/create", map[string]any{"model": tname, "from": "victim", "system": "S9", "stream": &f})
+	case "prune":
+		code = 200
+		if err := server.PruneLayers(); err != nil {
+			code, body = 500, err.Error()
+		}
+	case "pull":
+		// the registry publishes the victim's (cached) layers under the target's name: nothing is downloaded, the old
+		// manifest's digests become "unused layers"
+		vb, _ := os.ReadFile(filepath.Join(root, "manifests", victim[0], victim[1], victim[2], victim[3]))
+		regMu.Lock()
+		regManifests["n/target:t"] = vb
+		regMu.Unlock()
+		code, body = doJSON("POST", "/api/pull", map[string]any{"model": "http://" + tname, "insecure": true, "stream": &f})
+	}
+	after := snapshot(topAbs)
+	removed, created, changed := []string{}, []string{}, []string{}
+	for k, v := range before {
+		if w, ok := after[k]; !ok {
+			removed = append(removed, k)
+		} else if w != v {
+			changed = append(changed, k)
+		}
+	}
+	for k := range after {
+		if _, ok := before[k]; !ok {
+			created = append(created, k)
+		}
+	}
+	sort.Strings(removed)
+	sort.Strings(created)
+	sort.Strings(changed)
+	if len(body) > 300 {
+		body = body[len(body)-300:]
+	}
+	_, blobsErr := os.Stat(filepath.Join(root, "blobs"))
+	o["code"], o["body"], o["removed"], o["created"], o["changed"], o["blobsdir"] = code, body, hx.HexList(removed), hx.HexList(created), hx.HexList(changed), blobsErr == nil
+	return o
 }
 
 func main() {
@@ -535,6 +692,8 @@ func main() {
 				res = append(res, o)
 			}
 			return map[string]any{"res": res}
+		case "cleanup":
+			return cleanupOp(cwd, c)
 		case "splitnd":
 			a, b := server.VerifC13SplitNameDigest(hx.Unhex(c["s"]))
 			return map[string]any{"name": hx.Hex(a), "digest": hx.Hex(b)}
